@@ -222,7 +222,7 @@ def op_plain(ex):
 
     # move constructor
     f = fctor(1, lambda f: f.get('moveCtor'))
-    for kind in KINDS:
+    for kind in KINDS + ('plain',):
         for d in ((0,) if kind == 'empty' else (2, 3)):
             def setup(w, kind=kind, d=d):
                 V = mk_vector(w, 'V', kind, d, 'a')
@@ -285,7 +285,7 @@ def op_plain(ex):
 
     # destructor
     f = db.one(U, 'squids::SU_vector::~SU_vector', 0)
-    for kind in KINDS:
+    for kind in KINDS + ('plain',):
         for d in ((0,) if kind == 'empty' else (2, 3)):
             def setup(w, kind=kind, d=d):
                 this = mk_vector(w, 'v', kind, d, 'a')
@@ -314,6 +314,7 @@ def op_plain(ex):
                     for od in ((0,) if ok == 'empty' else (2, 3)):
                         combos.append((tk, td, ok, od))
         combos += [('owned', 2, 'owned', 4), ('owned', 4, 'owned', 2), ('owned', 3, 'owned', 5)]  # equal parity, different size
+        combos += [('plain', 2, 'owned', 3), ('plain', 3, 'owned', 2), ('plain', 2, 'owned', 2), ('plain', 2, 'empty', 0), ('owned', 2, 'plain', 3), ('plain', 3, 'ext', 2)]
         for tk, td, ok, od in combos:
             def setup(w, tk=tk, td=td, ok=ok, od=od, label=label):
                 this = mk_vector(w, 'v', tk, td, 'T')
@@ -392,7 +393,7 @@ def post_move(w, ctx, pre, out, live):
     res = []
     V, v = ctx['src'], ctx['this']
     sv, sV = snapshot(v), snapshot(V)
-    if ctx['srckind'] == 'owned':
+    if ctx['srckind'] in ('owned', 'plain'):
         if w.block_of(sv['components']) is not w.block_of(pre['V']['components']) or not sv['isinit']:
             res.append(('B.post', 'the destination takes over the source block', 'it does not'))
         elif not all(isinstance(x, Poly) and x.equals(y) for x, y in zip(sv['values'], pre['V']['values'])):
@@ -500,14 +501,26 @@ def expr_shapes(db):
     def free(name, ptypes):
         return db.one(U, name, len(ptypes), lambda f: [p['t'] for p in f['params']] == list(ptypes))
     # (label, op key, fdecl, how to call: 'm1' method with other, 'm0' method no vec arg, 'f2' free two vecs, 'fs' free scalar,vec ; value categories (a,b))
-    shapes.append(('a+b', 'Addition', meth('squids::SU_vector::operator+', [CSUV], '&'), 'm1', 'll'))
-    shapes.append(('a+move(b)', 'Addition', meth('squids::SU_vector::operator+', [RSUV], '&'), 'm1', 'lr'))
-    shapes.append(('move(a)+b', 'Addition', meth('squids::SU_vector::operator+', [CSUV], '&&'), 'm1', 'rl'))
-    shapes.append(('move(a)+move(b)', 'Addition', meth('squids::SU_vector::operator+', [RSUV], '&&'), 'm1', 'rr'))
-    shapes.append(('a-b', 'Subtraction', meth('squids::SU_vector::operator-', [CSUV], '&'), 'm1', 'll'))
-    shapes.append(('move(a)-b', 'Subtraction', meth('squids::SU_vector::operator-', [CSUV], '&&'), 'm1', 'rl'))
-    shapes.append(('-a', 'Negation', meth('squids::SU_vector::operator-', [], '&'), 'm0', 'l'))
-    shapes.append(('-move(a)', 'Negation', meth('squids::SU_vector::operator-', [], '&&'), 'm0', 'r'))
+    # every overload of the member operators + and - that exists (value category of *this x value category of the
+    # argument), discovered from the class: a new overload is judged like the others
+    required = {('+', 'll'), ('+', 'lr'), ('+', 'rl'), ('+', 'rr'), ('-', 'll'), ('-', 'rl'), ('neg', 'l'), ('neg', 'r')}
+    found = set()
+    for sym in ('+', '-'):
+        for f in db.find(U, 'squids::SU_vector::operator' + sym):
+            if f.get('record') != SUV or f.get('refq') not in ('&', '&&'):
+                continue
+            pts = [p['t'] for p in f['params']]
+            me = 'l' if f['refq'] == '&' else 'r'
+            lhs = 'a' if me == 'l' else 'move(a)'
+            if pts in ([CSUV], [RSUV]):
+                other = 'l' if pts == [CSUV] else 'r'
+                shapes.append(('%s%s%s' % (lhs, sym, 'b' if other == 'l' else 'move(b)'), 'Addition' if sym == '+' else 'Subtraction', f, 'm1', me + other))
+                found.add((sym, me + other))
+            elif pts == [] and sym == '-':
+                shapes.append(('-%s' % lhs, 'Negation', f, 'm0', me))
+                found.add(('neg', me))
+    if not required <= found:
+        raise AnalysisBroken('arithmetic operator overloads of SU_vector not found: %s' % sorted(required - found))
     shapes.append(('a*s', 'Multiplication', db.one(U, 'squids::SU_vector::operator*', 1, lambda f: f['params'][0]['t'] in ('double', 'const double') and f.get('refq') == '&'), 'ms', 'l'))
     shapes.append(('move(a)*s', 'Multiplication', db.one(U, 'squids::SU_vector::operator*', 1, lambda f: f['params'][0]['t'] in ('double', 'const double') and f.get('refq') == '&&'), 'ms', 'r'))
     shapes.append(('s*a', 'Multiplication', free('squids::operator*<void>', ['double', CSUV]), 'fs', 'l'))
@@ -612,6 +625,15 @@ def steal_flag_check(db, shape, proxy, a, b):
             cell = ref.cell if isinstance(ref, Ref) else None
             if cell is None or not rv.get(id(cell), False):
                 bad.append('Arg%dMovable set although %s is bound to %s' % (bit, fld, 'an lvalue operand' if cell is not None and id(cell) in rv else 'an unknown object'))
+    if op == 'ElementwiseProduct' and b is not None:
+        # the element-wise operation is applied as op(suv1[i], suv2[i]) for an arbitrary user operation: the operands must
+        # keep their roles (only the commutative built-in sum may put the movable operand first)
+        r1, r2 = proxy.fields['suv1'].value, proxy.fields['suv2'].value
+        c1 = r1.cell if isinstance(r1, Ref) else None
+        c2 = r2.cell if isinstance(r2, Ref) else None
+        if not (c1 is a and c2 is b):
+            bad.append('the operands change roles: the first operand of the expression is bound to %s (a user operation that is not symmetric, e.g. std::minus, is applied the wrong way round)'
+                       % ('suv2' if c2 is a else 'neither operand slot'))
     return (not bad, '; '.join(bad) or 'flags=%d consistent with value categories' % flags, unit.loc(f), sig(f))
 
 
@@ -669,6 +691,65 @@ def op_expressions(ex, tier):
                     def setup(w, shape=shape, d=d, ak=ak, bk=bk):
                         return setup_expr(ex, w, shape, None, d, ak, bk, ('new',))
                     ex.explore('SU_vector v(%s)' % label, U, fctor, setup, post_expr, is_ctor=True)
+
+
+def op_proxy_members(ex, tier):
+    """members of the expression base class applied to an unevaluated expression: conversion to a vector (from an
+    lvalue and from an expiring expression), negation (both), combination with a scalar or a vector.  They
+    materialise the expression themselves, so they allocate, steal operand storage and can fail like the assignments."""
+    db = ex.db
+    U = 'instantiate'
+    unit = db.unit(U)
+    two_vec = lambda how: how in ('m1', 'f2', 'me')
+    nfound = 0
+    for shape in expr_shapes(db):
+        label, op, fentry, how, cats = shape
+        prefix = 'squids::detail::EvaluationProxy<%s>::' % PROXY_CLASS[op]
+        members = {}
+        for f in unit.functions:
+            if not f['name'].startswith(prefix) or f.get('body') is None or f.get('access') != 'public' or f.get('lambda'):
+                continue
+            base = f['name'][len(prefix):]
+            if '<' in base or '::' in base:
+                continue  # member templates (expression with expression) are C14's entry points; their ownership follows from the conversions
+            pts = [p['t'] for p in f['params']]
+            if base in ('operator SU_vector', 'operator-') and pts == []:
+                kind = 'none'
+            elif base == 'operator*' and pts in (['double'], ['const double']):
+                kind = 'scalar'
+            elif base in ('operator+', 'operator-') and pts == [CSUV]:
+                kind = 'vec'
+            elif base == 'Evolve' and pts[:1] == [CSUV] and len(pts) == 2:
+                kind = 'vec_t'
+            else:
+                continue
+            members.setdefault((base, tuple(pts), f.get('refq')), (f, kind))
+        for (base, pts, refq), (f, kind) in sorted(members.items(), key=lambda kv: (kv[0][0], kv[0][1], kv[0][2] or '')):
+            nfound += 1
+            sym = {'operator SU_vector': 'SU_vector(%s)', 'operator-': '-(%s)' if kind == 'none' else '(%s)-o', 'operator+': '(%s)+o', 'operator*': '(%s)*s',
+                   'Evolve': '(%s).Evolve(o,t)'}[base]
+            expr = ('move(%s)' % label) if refq == '&&' else label
+            for d in ((2, 3) if tier == 'thorough' else (3,)):
+                for ak in (('owned', 'ext') if tier == 'thorough' else ('owned',)):
+                    def setup(w, shape=shape, d=d, ak=ak, kind=kind):
+                        a = mk_vector(w, 'a', ak, d, 'a')
+                        b = mk_vector(w, 'b', 'owned', d, 'b') if two_vec(shape[3]) else None
+                        live = [('a', a)] + ([('b', b)] if b is not None else [])
+                        args = []
+                        if kind == 'scalar':
+                            args = [Poly.var('s')]
+                        elif kind in ('vec', 'vec_t'):
+                            o = mk_vector(w, 'o', 'owned', d, 'e')
+                            live.append(('o', o))
+                            args = [o] + ([Poly.var('t')] if kind == 'vec_t' else [])
+                        proxy = build_expr(None, ex.db, w, shape, a, b)
+                        c = shape[4]
+                        consumable = tuple(n for n, cc in (('a', c[0]), ('b', c[1] if len(c) > 1 else 'l')) if cc == 'r')
+                        return dict(this=Cell(proxy, None, 0, 'expr'), args=args, live=live, target=None, info=state_label(d=d, a=ak),
+                                    expect_throw=False, consumable=consumable)
+                    ex.explore(sym % expr, U, f, setup, None)
+    if nfound < 40:
+        raise AnalysisBroken('members of the expression base class not found (%d)' % nfound)
 
 
 def setup_expr(ex, w, shape, W, d, ak, bk, tgt):
@@ -786,6 +867,7 @@ def run_all(db, tier='quick'):
     _EX[0] = ex
     op_plain(ex)
     op_expressions(ex, tier)
+    op_proxy_members(ex, tier)
     return ex
 
 
